@@ -12,7 +12,8 @@ LEAN_TARGETS = ["TornadoModel.C17.Props"]
 _P = "TornadoModel.C17."
 THEOREMS = [_P + n for n in [
     "accept_iff", "serverHandshake_inv", "acceptConnection_inv", "accept_value_spec", "selected_subprotocol_offered",
-    "deflate_only_if_offered_and_enabled", "default_origin_only_same_host_port", "originOk_iff",
+    "deflate_only_if_offered_and_enabled", "deflateOffer_valid", "deflate_answers_first_valid_offer",
+    "extensions_never_refuse", "default_origin_only_same_host_port", "originOk_iff",
     "clientHandshake_inv", "client_accepts_only_matching_key", "client_negotiates_only_offered",
     "b64enc_length", "b64val_char", "accept_value_length", "b64_roundtrip", "b64enc_injective",
 ]]
@@ -28,17 +29,26 @@ ASSUMPTIONS = [
     "extension offers follow `name (; param[=value])*` with token or quoted-token values (no ';', '\"' or '*' inside)",
     "window-bits values are sign + ASCII digits or non-numeric tokens (no underscores / non-ASCII digits accepted by int())",
     "applications: check_origin default or allow-all; select_subprotocol = first supported / fixed answer / None; compression options {} or None",
+    "the Spec's origin clause (`sameHostPort`) is stated with the model's `netloc` (= urlparse().netloc); the oracle therefore ALSO judges every server case "
+    "with an independent Python definition of the authority (regex on the RFC 3986 shape) and reports any disagreement between the two",
 ]
 RULE = ("product of present/absent/malformed Upgrade, Connection, Key, Version, Host x Origin forms x subprotocol lists x "
         "select policies x extension offers x compression; client: crafted 101/other responses x offered lists x compression; "
         "non-trivial = server case reaching the origin check or later / client case with status 101")
-EXHAUSTIVE = {"quick": True, "thorough": True}
+# Not exhaustive: the input space (arbitrary header values) is infinite.  Streams (1)-(5) are complete PRODUCTS OF FINITE
+# POOLS of representative values (the other fields pinned to a valid request); (6) is random.
+EXHAUSTIVE = {"quick": False, "thorough": False}
 CLAUSES = {
-    "the server completes the handshake exactly when the request carries the required headers and the origin check passes": "accept_iff (+ serverHandshake_inv, acceptConnection_inv)",
+    "the server completes the handshake exactly when the request carries the required headers and the origin check passes":
+        "accept_iff (+ serverHandshake_inv, acceptConnection_inv): isAccepted(model) = Spec.shouldAccept, where shouldAccept = upgradeOk && connectionOk "
+        "&& originOk && requiredOk && selectionOk (selectionOk: the APPLICATION's select_subprotocol answer was offered; nothing about extensions). "
+        "extensions_never_refuse: the Sec-WebSocket-Extensions header never changes the decision (after fix of the 500 on a bad offer). "
+        "Spec.originOk/selectionOk reuse the model's netloc/effectiveOrigin/offeredProtocols, so accept_iff is about the decision STRUCTURE; "
+        "that these helpers mean what the text says is tie + an independent Python oracle (_py_should_accept) on every server case",
     "101 with the RFC 6455 Sec-WebSocket-Accept value": "accept_value_spec, accept_value_length, b64enc_length, b64val_char, b64_roundtrip, b64enc_injective",
     "the subprotocol the application selected": "selected_subprotocol_offered",
-    "a permessage-deflate response only if offered and enabled": "deflate_only_if_offered_and_enabled",
-    "the default origin check accepts only an Origin whose host and port equal the Host header": "default_origin_only_same_host_port (+ originOk_iff); netloc = urlparse().netloc: tie only (origin stream)",
+    "a permessage-deflate response only if offered and enabled": "deflate_only_if_offered_and_enabled, deflateOffer_valid, deflate_answers_first_valid_offer (first offer with valid parameters; invalid ones declined)",
+    "the default origin check accepts only an Origin whose host and port equal the Host header": "default_origin_only_same_host_port (+ originOk_iff): Host = lower(netloc origin); that `netloc` is the authority of the origin (= urlparse().netloc): tie only (origin stream + independent regex oracle in `origin` and `server` cases)",
     "the client accepts a handshake response only if its accept value matches its key": "client_accepts_only_matching_key",
     "and it negotiates nothing it did not offer": "client_negotiates_only_offered (after fix 55becd8 of D16)",
 }
@@ -77,7 +87,18 @@ EXTENSIONS = [None, "", "permessage-deflate", "permessage-deflate; client_max_wi
               'permessage-deflate; Client_Max_Window_Bits = "12" ; server_max_window_bits=9', "PERMESSAGE-DEFLATE",
               "permessage-deflate; client_max_window_bits=8, permessage-deflate; foo=2",
               "bar; foo=2, permessage-deflate;server_max_window_bits=15;client_max_window_bits=8",
-              "permessage-deflate; client_no_context_takeover=a; client_max_window_bits=8; client_max_window_bits=9"]
+              "permessage-deflate; client_no_context_takeover=a; client_max_window_bits=8; client_max_window_bits=9",
+              # declined offers and fallbacks (RFC 7692 section 5): bad+good, bad+bad, good+bad, bad+other, three offers
+              "permessage-deflate; server_max_window_bits=7, permessage-deflate",
+              "permessage-deflate; foo=1, permessage-deflate; client_max_window_bits=9",
+              "permessage-deflate; server_max_window_bits=x, permessage-deflate; client_max_window_bits=16",
+              "permessage-deflate; client_max_window_bits=9, permessage-deflate; server_max_window_bits=7",
+              "permessage-deflate; server_max_window_bits=8, x-webkit-deflate-frame",
+              "permessage-deflate; server_max_window_bits=8, permessage-deflate; server_max_window_bits=8; server_no_context_takeover=1",
+              "permessage-deflate; client_max_window_bits=7, foo; a=1, permessage-deflate; client_max_window_bits=-1, permessage-deflate; server_max_window_bits=15",
+              "permessage-deflate; server_max_window_bits=16", "permessage-deflate; server_max_window_bits=15",
+              "permessage-deflate; client_max_window_bits=7", "permessage-deflate; client_max_window_bits=8",
+              "permessage-deflate; client_max_window_bits=15", "permessage-deflate; server_max_window_bits=9; bar=2"]
 VALID = {"upgrade": "websocket", "connection": "Upgrade", "origin": None, "secOrigin": None, "host": "example.com",
          "key": KEY, "version": "13", "protocols": None, "extensions": None}
 
@@ -117,7 +138,7 @@ def gen_cases(rng, tier):
     yield _server_case(origin="http://example.com", secOrigin="http://evil.org")
     # (3) subprotocol lists x select policies, (4) extension offers x compression, crossed with a few origins/versions
     for p, s in itertools.product(PROTOCOLS, SELECTS):
-        for e, comp in itertools.product(EXTENSIONS[:6] if tier == "quick" else EXTENSIONS, (False, True)):
+        for e, comp in itertools.product(EXTENSIONS[:8] + EXTENSIONS[22:24] if tier == "quick" else EXTENSIONS, (False, True)):
             yield _server_case(cfg=(False, comp), select=s, protocols=p, extensions=e)
     for e, comp, o, v in itertools.product(EXTENSIONS, (False, True), [None, "http://example.com", "http://evil.org"], ["13", "8", "9"]):
         yield _server_case(cfg=(False, comp), extensions=e, origin=o, version=v)
@@ -405,12 +426,45 @@ def spec_requests(case, impl):
     return []
 
 
+def _authority(origin):
+    """the authority of an origin, read off the RFC 3986 shape `[scheme:]//authority[/?#...]` (independent of the model)"""
+    o = origin.lstrip("".join(map(chr, range(33)))).replace("\t", "").replace("\r", "").replace("\n", "")
+    m = re.match(r"(?:[A-Za-z][A-Za-z0-9+.\-]*:)?//([^/?#]*)", o)
+    return m.group(1) if m else ""
+
+
+def _app_selection(case):
+    """what the application's select_subprotocol answers for this request"""
+    req, sel = case["req"], case["select"]
+    offered = [s.strip() for s in req["protocols"].split(",")] if req["protocols"] else []
+    if sel[0] == "none":
+        return offered, None
+    if sel[0] == "fixed":
+        return offered, sel[1]
+    return offered, next((p for p in offered if p in sel[1]), None)
+
+
+def _py_should_accept(case):
+    """the property text applied to the request, written without the Lean model/spec"""
+    req = case["req"]
+    upgrade_ok = (req["upgrade"] or "").lower() == "websocket"
+    connection_ok = "upgrade" in [t.strip().lower() for t in (req["connection"] or "").split(",")]
+    required_ok = bool(req["host"]) and bool(req["key"]) and req["version"] in ("7", "8", "13")
+    o = req["origin"] if req["origin"] is not None else req["secOrigin"]
+    origin_ok = o is None or bool(case["allowAny"]) or (req["host"] is not None and _authority(o).lower() == req["host"])
+    offered, chosen = _app_selection(case)
+    selection_ok = (not chosen) or chosen in offered          # an application answering something not offered is its own bug
+    return upgrade_ok and connection_ok and required_ok and origin_ok and selection_ok
+
+
 def spec_violation(case, impl, replies):
     k = case["kind"]
     if k == "server":
         st, vals = parse_reply(replies[0])
         assert st == "ok", replies[0]
         want = _canon(vals[0])
+        if want != _py_should_accept(case):
+            return "Lean Spec.shouldAccept (%s) and the independent oracle disagree on this request" % want
         if impl[0] not in ("accepted", "refused"):
             return "no HTTP response"
         got = impl[0] == "accepted"
@@ -422,9 +476,11 @@ def spec_violation(case, impl, replies):
             req = case["req"]
             if impl[1] != base64.b64encode(hashlib.sha1(req["key"].encode("utf-8") + GUID).digest()).decode():
                 return "wrong Sec-WebSocket-Accept"
-            offered = [s.strip() for s in req["protocols"].split(",")] if req["protocols"] else []
+            offered, chosen = _app_selection(case)
             if impl[2] is not None and impl[2] not in offered:
                 return "selected subprotocol was not offered"
+            if impl[2] != (chosen if chosen else None):
+                return "101 subprotocol is not the application's selection"
             if impl[3] is not None:
                 names = [e.split(";")[0].strip() for e in (req["extensions"] or "").split(",")]
                 if not case["compression"] or "permessage-deflate" not in names or not impl[3].startswith("permessage-deflate"):
